@@ -83,10 +83,11 @@ def roundtrip(state, pickled):
 # 1a. RandomSearcher twins
 # --------------------------------------------------------------------------
 def rs_play(s, enc, rec, ops, tid0, suggested, restrict):
+    # [suggested] = (list of (trial, config) suggested so far, list of those registered as pending)
     """runs ops on searcher s; returns (event terms, answer terms, canonical trace)"""
     evs, obs, trace = [], [], []
     tid = tid0
-    suggested = list(suggested)
+    suggested, registered = (list(suggested[0]), list(suggested[1])) if isinstance(suggested, tuple) else (list(suggested), [])
     for op in ops:
         if op == "get":
             n0 = len(rec.log)
@@ -106,16 +107,17 @@ def rs_play(s, enc, rec, ops, tid0, suggested, restrict):
         elif op == "pending" and suggested:
             t, c = suggested[-1]
             s.register_pending(str(t), config=c)
+            registered.append((t, c))
             evs.append("(RPending Cf %s %s)" % (zlit(t), enc(c)))
         elif op == "failed" and suggested:
-            t, c = suggested[len(suggested) // 2]
+            t, c = registered[-1] if registered else suggested[len(suggested) // 2]
             s.evaluation_failed(str(t))
             evs.append("(RFailed Cf %s)" % zlit(t))
         elif op == "update" and suggested:
             t, c = suggested[0]
             s.on_trial_result(str(t), c, {"m": 0.5}, update=True)
             evs.append("(RUpdate Cf %s)" % zlit(t))
-    return evs, obs, trace, tid, suggested
+    return evs, obs, trace, tid, (suggested, registered)
 
 
 def run_rs_twin(ctx, case):
@@ -224,6 +226,18 @@ def run_rs_twin(ctx, case):
         # model comparison only where the first clone ran before any other consumer of the snapshot
         results.append((cut, None, term if not interleaved else None))
     return results
+
+
+def gen_rs_twin_restrict_dup(rng):
+    """restrict_configurations + allow_duplicates=True, a trial registered and failed before the snapshot; the
+    reference twin is NEVER snapshotted (get_state must be observationally pure)"""
+    spec = [["x", "dom", ["randint", 0, 9]], ["y", "dom", ["choice", ["a", "b"]]]]
+    rc = [{"x": x, "y": y} for x, y in rng.sample([(i, j) for i in range(10) for j in "ab"], rng.randint(5, 9))]
+    hist = ["get", "pending", "failed", "get", "pending"] + rng.choice([[], ["failed"], ["get", "pending", "failed"]])
+    cont = ["get"] * 8
+    return dict(kind="rs_twin", spec=spec, pts=[], restrict=rc, allow_dup=True, debug=True, seed=rng.randrange(10 ** 6),
+                ops=hist + cont, cuts=[len(hist)], pickle_state=rng.random() < 0.4, order=rng.choice(["sequential", "interleaved"]),
+                directed="restrict_allow_duplicates_failed_before_snapshot")
 
 
 def gen_rs_twin(rng):
@@ -379,6 +393,22 @@ def gen_gp_twin_many_pending(rng, kind):
                 order="sequential", directed_history="three_pending_trials_8_9_10_at_snapshot")
 
 
+def gen_gp_twin_restrict(rng):
+    """GP searcher with restrict_configurations (24 configurations), snapshot INSIDE the initial random phase after a few
+    random draws; the clone is built from a FRESHLY constructed searcher (template) with the snapshot"""
+    import itertools
+    spec = [["a", "dom", ["randint", 0, 5]], ["b", "dom", ["choice", ["p", "q", "r", "s"]]]]
+    allc = [{"a": a, "b": b} for a, b in itertools.product(range(6), "pqrs")]
+    rng.shuffle(allc)
+    k = rng.randint(2, 4)
+    hist = ["suggest", "complete"] * k
+    cont = ["suggest", "complete"] * 6
+    return dict(kind="gp_twin", sched="fifo-bayesopt", spec=spec, pts=[], seed=rng.randrange(10 ** 6), num_init_random=7,
+                search_options=dict(restrict_configurations=allc[:rng.choice([16, 24])], opt_nstarts=1), template="fresh",
+                ops=hist + cont, cuts=[len(hist)], max_suggest=k + 6, metrics=[round(rng.uniform(0, 1), 3) for _ in range(20)],
+                pickle_state=rng.random() < 0.5, order="sequential", directed_history="restrict_configurations_snapshot_in_random_phase")
+
+
 def rng_state_equal(a, b):
     """all five entries of RandomState.get_state(): name, key array, pos, has_gauss, cached_gaussian"""
     return (len(a) == len(b) == 5 and a[0] == b[0] and np.array_equal(np.asarray(a[1]), np.asarray(b[1]))
@@ -520,7 +550,13 @@ def run_gp_twin_at(ctx, case):
 
     def install(p, st):
         with contextlib.redirect_stdout(io.StringIO()):
-            clone = p.sch.searcher.clone_from_state(st)
+            template = p.sch.searcher
+            if case.get("template") == "fresh":
+                # a searcher constructed anew with the same arguments (e.g. after a restart) provides the immutable part
+                fresh = make_gp_scheduler(case, space)
+                fresh.searcher.configure_scheduler(fresh)
+                template = fresh.searcher
+            clone = template.clone_from_state(st)
             p.sch._searcher = clone           # the only way to hand the clone to the scheduler (no public setter)
             clone.configure_scheduler(p.sch)  # 'has to be called before the searcher can be used'
     install(pb, roundtrip(state, case["pickle_state"]))
@@ -708,6 +744,7 @@ def run(ctx, replay=None):
     else:
         cases = directed_cases()
         cases += [gen_rs_twin(rng) for _ in range(ctx.n(120, 1200))]
+        cases += [gen_rs_twin_restrict_dup(rng) for _ in range(ctx.n(10, 60))]
         cases += [gen_gs_twin(rng) for _ in range(ctx.n(100, 1000))]
         cases += [gen_gs_twin(rng, on_grid=True) for _ in range(ctx.n(30, 200))]
         cases += [gen_gp_twin(rng) for _ in range(ctx.n(20, 100))]
@@ -719,6 +756,7 @@ def run(ctx, replay=None):
             cases += [gen_gp_twin_silent(rng, kind) for _ in range(ctx.n(3, 12))]
         for kind in ("fifo-bayesopt", "hb-stopping-bayesopt"):
             cases += [gen_gp_twin_many_pending(rng, kind) for _ in range(ctx.n(3, 12))]
+        cases += [gen_gp_twin_restrict(rng) for _ in range(ctx.n(6, 30))]
         for kind in ("fifo-bayesopt", "hb-stopping-bayesopt"):
             cases += [gen_dill_multiworker(rng, kind) for _ in range(ctx.n(3, 15))]
         for kind in ("hb-stopping-random", "hb-promotion-random", "hb-pasha-random"):
